@@ -203,6 +203,50 @@ def pinned_canon(om, st, pins, terms):
     return [cn(t) for t in terms]
 
 
+def v4_class_pairs(om, slot, a_vals, b_vals, fixed=None):
+    """For the raw metric `slot` of a v4 effective-value group: the pairs of joint classes
+    (class with slot in a_vals, class with slot in b_vals) that share the values of the other raw
+    metrics of the group.  `fixed`: further raw pins {slot: value} applied to both sides."""
+    out = []
+    for gname, g in om.v4["groups"].items():
+        raw = g["raw"]
+        if slot not in raw:
+            continue
+        i = raw.index(slot)
+        cls_of = {}
+        for cls, rows in g["classes"].items():
+            for r in rows:
+                cls_of[r] = cls
+        pairs = set()
+        for r, c1 in cls_of.items():
+            if r[i] not in a_vals:
+                continue
+            if fixed and any(r[raw.index(s_)] != val for s_, val in fixed.items() if s_ in raw and s_ != slot):
+                continue
+            for bv in b_vals:
+                r2 = r[:i] + (bv,) + r[i + 1 :]
+                if isinstance(bv, tuple) and bv and bv[0] == "same-as":
+                    r2 = r[:i] + (r[raw.index(bv[1])],) + r[i + 1 :]
+                c2 = cls_of.get(r2)
+                if c2 is not None and c2 != c1:
+                    pairs.add((c1, c2))
+        out.append((gname, sorted(pairs, key=repr)))
+    return out
+
+
+def v4_terms_over_groups(om):
+    """Terms through which the effective-value groups reach the v4 outputs."""
+    terms = [d for d in (om.v4.get("digit_defs") or []) if isinstance(d, Term)]
+    terms.append(om.attr("base_score"))
+    return terms
+
+
+def v4_invariant(om, gname, c1, c2, terms):
+    a = pinned_canon(om, om.st, {gname: (c1,)}, terms)
+    b = pinned_canon(om, om.st, {gname: (c2,)}, terms)
+    return a is not None and b is not None and all(x == y for x, y in zip(a, b))
+
+
 def check_nd(ctx, led, v, rule="C05.nd"):
     """For every optional metric K: every sink output is the same for K absent and K = Not Defined
     (all other metrics arbitrary).  Chaining single-metric flips gives every subset."""
@@ -240,17 +284,17 @@ def check_nd(ctx, led, v, rule="C05.nd"):
                 om.module.where(om.cls.methods[name].node),
                 "%s() distinguishes an omitted %s from %s:%s" % (name, k, k, nd),
             )
-        for dname, d in sorted(defs.items()):
-            if isinstance(d, Fin) and s in d.slots:
-                a = pinned_canon(om, om.st, {s: (ABSENT,)}, [d])
-                b = pinned_canon(om, om.st, {s: (nd,)}, [d])
+        if v == 4:
+            terms4 = v4_terms_over_groups(om)
+            for gname, pairs in v4_class_pairs(om, s, (ABSENT,), (nd,)):
                 n += 1
+                bad = [(c1, c2) for c1, c2 in pairs if not v4_invariant(om, gname, c1, c2, terms4)]
                 led.check(
-                    a is not None and b is not None and a[0] == b[0],
+                    not bad,
                     rule,
-                    "CVSS4 %s [%s absent vs %s:%s]" % (dname, k, k, nd),
+                    "CVSS4 score via %s [%s absent vs %s:%s]" % (gname, k, k, nd),
                     "cvss/cvss4.py",
-                    "the effective value %s distinguishes an omitted %s from %s:%s" % (dname, k, k, nd),
+                    "the v4 score distinguishes an omitted %s from %s:%s (effective-value classes %s)" % (k, k, nd, bad[:1]),
                 )
     return n
 
@@ -284,22 +328,20 @@ def check_c06(ctx, led, v):
     for mk, b in sorted(modified_of.items()):
         sm, sb = metric_slot(mk), metric_slot(b)
         if v == 4:
-            # through the derived definition
-            for dname, d in sorted(om.space.defs.items()):
-                if isinstance(d, Fin) and sm in d.slots:
-                    for val in [x for x in om.space.dom[sb] if x is not ABSENT]:
-                        if val not in om.space.dom[sm]:
-                            continue
-                        a = pinned_canon(om, st, {sm: (nd,), sb: (val,)}, [d])
-                        c = pinned_canon(om, st, {sm: (val,), sb: (val,)}, [d])
-                        n += 1
-                        led.check(
-                            a is not None and c is not None and a[0] == c[0],
-                            "C06.a",
-                            "CVSS4 %s [%s:%s vs %s:%s with %s:%s]" % (dname, mk, nd, mk, val, b, val),
-                            where,
-                            "setting %s to its base value %s changes the effective value (%s)" % (mk, val, dname),
-                        )
+            terms4 = v4_terms_over_groups(om)
+            for val in [x for x in om.space.dom[sb] if x is not ABSENT]:
+                if val not in om.space.dom[sm]:
+                    continue
+                for gname, pairs in v4_class_pairs(om, sm, (nd, ABSENT), (val,), fixed={sb: val}):
+                    n += 1
+                    bad = [(c1, c2) for c1, c2 in pairs if not v4_invariant(om, gname, c1, c2, terms4)]
+                    led.check(
+                        not bad,
+                        "C06.a",
+                        "CVSS4 score via %s [%s:%s vs %s:%s with %s:%s]" % (gname, mk, nd, mk, val, b, val),
+                        where,
+                        "setting the Not Defined %s to its base metric's value %s changes the v4 score" % (mk, val),
+                    )
             continue
         for val in [x for x in st.folder().domain(sb) if x is not ABSENT]:
             if val not in om.space.dom[sm]:
@@ -321,19 +363,17 @@ def check_c06(ctx, led, v):
     for k, ev in sorted(equiv.items()):
         s = metric_slot(k)
         if v == 4:
-            for dname, d in sorted(om.space.defs.items()):
-                if isinstance(d, Fin) and s in d.slots:
-                    # only when no modified metric overrides (there is none for E/CR/IR/AR)
-                    a = pinned_canon(om, st, {s: (nd,)}, [d])
-                    c = pinned_canon(om, st, {s: (ev,)}, [d])
-                    n += 1
-                    led.check(
-                        a is not None and c is not None and a[0] == c[0],
-                        "C06.b",
-                        "CVSS4 %s [%s:%s vs %s:%s]" % (dname, k, nd, k, ev),
-                        where,
-                        "%s:%s must count as %s:%s" % (k, nd, k, ev),
-                    )
+            terms4 = v4_terms_over_groups(om)
+            for gname, pairs in v4_class_pairs(om, s, (nd, ABSENT), (ev,)):
+                n += 1
+                bad = [(c1, c2) for c1, c2 in pairs if not v4_invariant(om, gname, c1, c2, terms4)]
+                led.check(
+                    not bad,
+                    "C06.b",
+                    "CVSS4 score via %s [%s:%s vs %s:%s]" % (gname, k, nd, k, ev),
+                    where,
+                    "%s:%s must count as %s:%s for the v4 score" % (k, nd, k, ev),
+                )
             continue
         # definedness of a score is exempt ("every defined score"): compare under a state where
         # the other metrics of the group keep the score defined is not needed for v3; for v2 the
@@ -385,9 +425,6 @@ def check_c06(ctx, led, v):
             d = om.space.defs.get(dname) if dname else None
             n += 1
             if d is None:
-                real = om.v4.get("real_m", {}).get(b)
-                d = real if isinstance(real, Fin) else None
-            if d is None:
                 led.violation("C06.d", "CVSS4 effective %s" % b, where, "scoring never consults the effective value of %s" % b)
                 continue
             t = pinned_canon(om, st, {sm: defined_vals}, [d])
@@ -397,6 +434,17 @@ def check_c06(ctx, led, v):
                 "CVSS4 %s [%s defined, vary %s]" % (dname, mk, b),
                 where,
                 "the effective value of %s still depends on the base metric although %s is defined" % (b, mk),
+            )
+            # ... and the score itself must not read the overridden base metric directly
+            t2 = pinned_canon(om, st, {sm: defined_vals}, [scores["base_score"]])
+            raw = set(x for x in deps_of(t2[0]) if x.startswith("m:")) if t2 is not None else set()
+            n += 1
+            led.check(
+                sb not in raw,
+                "C06.d",
+                "CVSS4.base_score [%s defined, vary %s]" % (mk, b),
+                where,
+                "the score reads the base metric %s directly (not through the effective value) although %s overrides it" % (b, mk),
             )
     # (e) base score independent of temporal/environmental metrics, temporal of environmental
     if v in (2, 3):
